@@ -7,6 +7,8 @@
      kind 3  parse integer lists  row = text           out = [v1;..;vk]
      kind 4  parse floats         row = text           out = [bits of the double]
      kind 5  format floats        row = [bits]         out = bits of the re-parsed double :: text
+     kind 7  parse integers, some rows malformed   row = text    out = [value] / exception (k_errs)
+     kind 8  parse floats, some rows malformed     row = text    out = [bits]  / exception (k_errs)
      kind 6  digit matrix         row 0 = the buffer, row i = [start; end]   out = the matrix row
              (move_intervals_to_digit_array(data, starts, ends, '0') on the selected intervals)
    k_pow is the platform's 10.**k observed in the same process, as (k, bit pattern), for every k the float
@@ -29,11 +31,19 @@ Definition parse_floats : list (list Z) -> option (list (bool * Z * Z * Z)) := s
         before it the code was parse_split_ints_pinned ---- *)
 Definition parse_lists : Z -> list (list Z) -> option (list (list Z)) := parse_split_ints.
 
+(* ---- which exception, at which row, for malformed texts: the code as in /repo now; after notes/C18.fix-3.diff
+        set these to str_to_int_res_fixed / str_to_float_err_fixed ---- *)
+Definition int_outcome : list (list Z) -> pres (list Z) := str_to_int_res.
+Definition float_outcome : list (list Z) -> pres unit := str_to_float_err.
 Definition float_plus : bool := true.     (* which variant of the float parser the double model follows *)
 Definition parse_tol : Z := 8.     (* float parsing tolerance in half-ulps: 4 ulp *)
 
 Definition run := (Z * list Z * option (list (list Z)))%type.   (* route, indices, outputs (None = exception) *)
-Record case := { k_kind : Z; k_rows : list (list Z); k_runs : list run; k_pow : list (Z * Z) }.
+(* k_errs: per run, (class, row) of the exception it raised: (0,_) none, (1,row) EncodingError reported at that row of
+   the sub-batch, (2,_) any other exception.  k_after: the input rows as they are AFTER all runs (the same array object
+   is parsed by every direct run), None when not observed. *)
+Record case := { k_kind : Z; k_rows : list (list Z); k_runs : list run; k_pow : list (Z * Z);
+                 k_errs : list (Z * Z); k_after : option (list (list Z)) }.
 
 Definition select (rows : list (list Z)) (idx : list Z) : list (list Z) :=
   map (fun i => nth (Z.to_nat i) rows []) idx.
@@ -96,6 +106,24 @@ Definition run_spec (c : case) (r : run) : bool :=
       if k_kind c =? 6 then matrix_spec (nth 0 (k_rows c) []) (map iv_of (select (k_rows c) idx)) outs
       else forall2b (row_spec (k_kind c)) (select (k_rows c) idx) outs
   end.
+(* kinds 7 and 8: a sub-batch without a malformed row converts as usual (the malformed rows of the case do not matter:
+   row independence); a sub-batch with one must raise the parse error, reported at its FIRST malformed row *)
+Definition malformed (kind : Z) (t : list Z) : bool :=
+  if kind =? 7 then match text_value t with None => true | Some _ => false end
+  else match float_text_value t with None => true | Some _ => false end.
+Definition mal_spec (c : case) (re : run * (Z * Z)) : bool :=
+  let '((route, idx, out), (cls, row)) := re in
+  let sel := select (k_rows c) idx in
+  match find_index (malformed (k_kind c)) sel 0 with
+  | Some k => match out with None => (cls =? 1) && (row =? k) | Some _ => false end
+  | None => match out with
+            | Some outs => forall2b (row_spec (if k_kind c =? 7 then 1 else 4)) sel outs
+            | None => false
+            end
+  end.
+Definition is_mal_kind (c : case) : bool := (k_kind c =? 7) || (k_kind c =? 8).
+Definition inputs_unchanged (c : case) : bool :=
+  match k_after c with Some a => zll_eqb a (k_rows c) | None => true end.
 (* row independence, observed directly: whatever sub-batch and order a row was converted in, the result for it is
    the same byte for byte / bit for bit (kinds 0-5; for kind 6 the padding width legitimately follows the sub-batch) *)
 Definition run_pairs (r : run) : list (Z * list Z) :=
@@ -107,7 +135,10 @@ Definition consistent (c : case) : bool :=
                        | Some q => zlist_eqb (snd q) (snd p)
                        | None => true
                        end) pairs.
-Definition spec_ok (c : case) : bool := forallb (run_spec c) (k_runs c) && consistent c.
+Definition spec_ok (c : case) : bool :=
+  (if is_mal_kind c then (len (k_errs c) =? len (k_runs c)) && forallb (mal_spec c) (combine (k_runs c) (k_errs c))
+   else forallb (run_spec c) (k_runs c))
+  && consistent c && inputs_unchanged c.
 
 (* ---------- the model, per run ---------- *)
 Definition float_rows_ok (texts : list (list Z)) (bits : list Z) : bool :=
@@ -151,4 +182,20 @@ Definition run_model (c : case) (r : run) : bool :=
   else if kind =? 6 then
     opt_eqb zll_eqb out (Some (digit_matrix (nth 0 (k_rows c) []) (map iv_of sel) 48))
   else false.
-Definition model_ok (c : case) : bool := forallb (run_model c) (k_runs c) && pow_table_ok c.
+(* kinds 7 and 8: the model's outcome (values / EncodingError at a row / other exception) against the observed one *)
+Definition as_kind (k : Z) (c : case) : case :=
+  {| k_kind := k; k_rows := k_rows c; k_runs := k_runs c; k_pow := k_pow c; k_errs := k_errs c; k_after := k_after c |}.
+Definition mal_model (c : case) (re : run * (Z * Z)) : bool :=
+  let '((route, idx, out), (cls, row)) := re in
+  let sel := select (k_rows c) idx in
+  let res := if k_kind c =? 7 then (match int_outcome sel with POk _ => POk tt | PEnc r => PEnc r | POther => POther end)
+             else float_outcome sel in
+  match res with
+  | POk _ => run_model (as_kind (if k_kind c =? 7 then 1 else 4) c) (route, idx, out)
+  | PEnc r => match out with None => (cls =? 1) && (row =? r) | Some _ => false end
+  | POther => match out with None => cls =? 2 | Some _ => false end
+  end.
+Definition model_ok (c : case) : bool :=
+  (if is_mal_kind c then (len (k_errs c) =? len (k_runs c)) && forallb (mal_model c) (combine (k_runs c) (k_errs c))
+   else forallb (run_model c) (k_runs c))
+  && pow_table_ok c && inputs_unchanged c.
